@@ -984,10 +984,10 @@ class Explorer:
 
         # ---- Vec<GenericEvent> words
         if p == "std::vec::Vec::<T>::new" or p == "std::vec::Vec::<T>::with_capacity":
-            if "GenericEvent" in info["targs"][0]:
+            if tracked_elem(info["targs"][0]):
                 return ret(("vec", ()))
             return None
-        if p == "std::boxed::Box::<T>::new_uninit" and "GenericEvent" in info["targs"][0]:
+        if p == "std::boxed::Box::<T>::new_uninit" and tracked_elem(info["targs"][0]):
             return ret(("boxuninit",))
         if p == "std::boxed::box_assume_init_into_vec_unsafe":
             v = args[0]
@@ -998,7 +998,7 @@ class Explorer:
             if v[0] == "boxarr":
                 return ret(("vec", v[1]))
             return ret(("vec", (("evs?",),)))
-        if p == "std::vec::Vec::<T, A>::push" and "GenericEvent" in info["targs"][0]:
+        if p == "std::vec::Vec::<T, A>::push" and tracked_elem(info["targs"][0]):
             tgt = args[0]
             if tgt[0] == "ref":
                 cur = self.read_loc(st, tgt[1], tgt[2])
@@ -1009,12 +1009,33 @@ class Explorer:
                 st.effects.append(("push", tgt[1], args[1], site))
                 return ret(UNIT())
             return None
-        if p == "std::iter::Extend::extend" and info["targs"] and "GenericEvent" in info["targs"][0]:
+        if p == "std::io::IoSlice::<'a>::new":
+            a0 = args[0]
+            return ret(("io", ("loc", a0[1], a0[2]) if a0[0] == "ref" else a0))
+        if p in ("std::vec::Vec::<T, A>::extend_from_slice", "std::vec::Vec::<T, A>::append") and tracked_elem(info["targs"][0]):
             tgt = args[0]
             src = args[1]
             if tgt[0] == "ref":
                 cur = self.read_loc(st, tgt[1], tgt[2])
-                items = src[1] if src[0] == "vec" else (("evs?", src),)
+                if p.endswith("append"):
+                    sv = self.read_loc(st, src[1], src[2]) if src[0] == "ref" else src
+                    items = sv[1] if sv[0] == "vec" else (("nested", sv),)
+                else:
+                    items = (("slice", ("loc", src[1], src[2]) if src[0] == "ref" else src),)
+                base = cur[1] if cur[0] == "vec" else (("evs?", cur),)
+                self.write_loc(st, tgt[1], tgt[2], ("vec", base + items))
+                return ret(UNIT())
+            return None
+        if p == "std::slice::<impl [T]>::to_vec" and tracked_elem(info["targs"][0]):
+            a0 = args[0]
+            return ret(("vec", (("slice", ("loc", a0[1], a0[2]) if a0[0] == "ref" else a0),)))
+        if p == "std::iter::Extend::extend" and info["targs"] and (
+                "GenericEvent" in info["targs"][0] or (len(info["targs"]) > 1 and tracked_elem(info["targs"][1]))):
+            tgt = args[0]
+            src = args[1]
+            if tgt[0] == "ref":
+                cur = self.read_loc(st, tgt[1], tgt[2])
+                items = src[1] if src[0] == "vec" else ((("evs?", src),) if "GenericEvent" in info["targs"][0] else (("nested", src),))
                 base = cur[1] if cur[0] == "vec" else (("evs?", cur),)
                 self.write_loc(st, tgt[1], tgt[2], ("vec", base + items))
                 for it in items:
@@ -1245,6 +1266,13 @@ class Explorer:
                 cargs.append(elem)
         st.effects.append(("closure_iter", clo[1], iteration))
         self.enter(st, stack, fr, callee, cargs, None, None, cont, closure=True)
+
+
+def tracked_elem(ty):
+    """Element types whose vectors are tracked as words: events, bytes, IoSlices."""
+    if ty.startswith("["):
+        ty = ty[1:].rsplit(";", 1)[0].strip()
+    return "GenericEvent" in ty or ty == "u8" or ty.startswith("std::io::IoSlice<")
 
 
 def sig_mut_indices(t):
